@@ -45,7 +45,7 @@ Definition get_frames (s : sound) (idx : Z) (d : bytes) : result (sound * bytes)
     else Err EValue in
   if bps s2 =? 8 then Ok (s2, slice d idx2 (idx2 + len))
   else if bps s2 =? 16 then
-    if len <? 0 then Err EValue (* bytearray(negative) *)
+    if (len <? 0) || (idx2 + len * 2 >? zlen d) then Err EValue (* sample area shorter than declared *)
     else let! b := swap_loop (S (length d)) len d idx2 in Ok (s2, b)
   else Err EValue.
 
